@@ -31,6 +31,10 @@ def run_vt(prop, tier, seed, replay, clauses, rule, nontrivial):
             if not cl.startswith(clauses):
                 continue
             c = fl["case"]
+            if cl == "update_uncompressed":
+                # C11 does not prescribe the compression the stage declares (C10 does, for merging): an observation
+                run.observation("update_declared_compression", {"declared_tc": c.get("declared_tc")})
+                continue
             rec = {"clause": cl, "variant": c.get("variant", c.get("variants")), "case": c}
             rec["err"] = (c.get("lookup", {}).get("err") or c.get("reencoded", {}).get("err") or "")[:120]
             if line - 1 < len(case_list):
